@@ -30,6 +30,40 @@ Proof.
   - eexists. split; [vm_compute; reflexivity|]. split; vm_compute; reflexivity.
 Qed.
 
+(* ---- BadgerDB's per-transaction limit ---- *)
+(* an Init beyond the limit is an Init that fails and changes nothing; every other call is untouched *)
+Lemma limit_op_cases_pf : forall lim c o,
+  limit_op lim c o = o \/
+  (exists s, o = Init s /\ valid_seeds s = true /\ limit_op lim c o = InitErr (lim - 1)
+             /\ failing_init (limit_op lim c o) /\ snd (compile_op c (limit_op lim c o)) = c).
+Proof.
+  intros lim c o. destruct o as [i v|i v|i|s|n]; cbn [limit_op]; auto.
+  destruct (init_too_big lim c s) eqn:E; [right|left; reflexivity].
+  exists s. unfold init_too_big in E. apply andb_true_iff in E. destruct E as [E _].
+  apply andb_true_iff in E. destruct E as [E Hv]. apply andb_true_iff in E. destruct E as [_ Hm].
+  split; [reflexivity|]. split; [exact Hv|]. split; [reflexivity|]. split; [exact I|].
+  cbn [compile_op]. destruct (isSomeV (get KMark c)); reflexivity.
+Qed.
+
+(* RebuildIndexes under the limit: either it succeeds and restores the indexes exactly, or it fails
+   and has changed no value and not the marker (the indexes are empty then) *)
+Lemma rebuild_lim_pf : forall lim g ls,
+  let c := run_all g [] ls in
+  (exists c', rebuild_indexes_lim lim g c = RbOk c' /\ index_exact g c' /\
+              (forall k, is_idx_of g k = false -> get k c' = get k c)) \/
+  (exists d, rebuild_indexes_lim lim g c = RbErr d /\
+             (forall k, is_idx_of g k = false -> get k d = get k c) /\
+             (forall k, is_idx_of g k = true -> get k d = None)).
+Proof.
+  intros lim g ls c. unfold rebuild_indexes_lim.
+  destruct (negb (is_nil (idxs g)) && negb (Nat.eqb lim 0) && negb (scan_fails g (drop_indexes g c))
+            && Nat.leb lim (length (rebuild_ws g (drop_indexes g c)))).
+  - right. exists (drop_indexes g c). split; [reflexivity|]. split; intros k Hk; rewrite drop_indexes_filter.
+    + apply get_filter_in. unfold idx_pred. rewrite Hk. reflexivity.
+    + apply get_filter_out. unfold idx_pred. rewrite Hk. reflexivity.
+  - left. apply rebuild_restores_pf.
+Qed.
+
 (* ---- the byte layout keeps structured keys apart ---- *)
 Definition no_byte (b : N) (s : bytes) : bool := forallb (fun x => negb (x =? b)) s.
 Definition no_dollar_start (s : bytes) : bool := match s with x :: _ => negb (x =? dollar) | [] => true end.
